@@ -259,6 +259,27 @@ def verified_source(ctx, flow, copyfns, reach):
                 vals = [p_ for w_, p_ in ctx.res.bindings(caller).get(s.id, []) if w_ == "value"]
                 sel = [t for v in vals if isinstance(v, ast.Call) for t in C.targets_of(ctx, caller, v)] if len(vals) == 1 else []
                 rets = [(f_, r) for f_ in sel for r in own_nodes(f_.node) if isinstance(r, ast.Return) and r.value is not None and not (isinstance(r.value, ast.Constant) and r.value.value is None)]
+                parked = _parked_candidates(ctx, flow, caller, vals[0]) if len(vals) == 1 and not sel else None
+                if parked is not None:
+                    stores, attr = parked
+                    if not stores:
+                        ctx.violated("C14.3", caller, "the copy source %r is read from %s, which nothing fills with a verified candidate" % (s.id, attr), call)
+                        continue
+                    for f2, st2, key2, cand2 in stores:
+                        judge_selection(ctx, flow, f2, st2, cand2, "%s -> %s" % (norm(call)[:40], norm(st2)[:40]))
+                        # the mapping must tell the entries of the metafile apart: the search index is keyed by base name,
+                        # which two entries may share
+                        lp, _, _ = candidate_loop(ctx, f2, st2, cand2)
+                        idx_keys = {norm(x.slice) for x in ast.walk(lp.iter) if isinstance(x, ast.Subscript)} | \
+                                   {norm(x.args[0]) for x in ast.walk(lp.iter) if isinstance(x, ast.Call) and isinstance(x.func, ast.Attribute) and x.func.attr == "get" and x.args} if lp is not None else set()
+                        if norm(key2) in idx_keys:
+                            ctx.violated("C14.3", f2, "the verified candidate is parked in %s under `%s`, the very key of the search index (a file's base name): two entries of the metafile "
+                                         "with the same base name share the slot, and one of them is copied from the other's source" % (attr, norm(key2)), st2)
+                        elif any(x[0] in ("attr", "selfattr") and x[-1] == "full" for x in walk_terms(flow.term(key2, f2))) or "full" in norm(key2):
+                            ctx.holds("C14.3", f2, "the verified candidate is parked in %s under the entry's full path" % attr, st2)
+                        else:
+                            ctx.undecided("C14.3", f2, "the verified candidate is parked in %s under `%s`; whether that key tells all entries of the metafile apart is not decided" % (attr, norm(key2)), st2)
+                    continue
                 if not sel or not rets:
                     st = flow.term(s, caller)
                     if any((x[0] == "param" and x[2] in ("contents", "filemap")) or (x[0] == "ext" and x[1] in ("os.listdir", "os.walk", "os.scandir")) or (x[0] == "attr" and x[2] == "contents")
@@ -291,6 +312,23 @@ def verified_source(ctx, flow, copyfns, reach):
     ctx.floor("call sites of the copy function in rebuild", 2, sites)
 
 
+def _parked_candidates(ctx, flow, fn, value):
+    """value is `<obj>.<attr>[key]`: ([(function, store statement, key expr, stored candidate name)], attr text) for the
+    stores `<something>.<attr>[k] = name` of the rebuild module; None if value has another shape."""
+    if not (isinstance(value, ast.Subscript) and isinstance(value.value, ast.Attribute) and not isinstance(value.slice, ast.Slice)):
+        return None
+    attr = value.value.attr
+    out = []
+    for f2 in ctx.prog.functions.values():
+        if f2.module.name != "torrentfile.rebuild":
+            continue
+        for n in own_nodes(f2.node):
+            if isinstance(n, ast.Assign) and len(n.targets) == 1 and isinstance(n.targets[0], ast.Subscript) and isinstance(n.targets[0].value, ast.Attribute) \
+                    and n.targets[0].value.attr == attr and isinstance(n.value, ast.Name):
+                out.append((f2, n, n.targets[0].slice, n.value.id))
+    return out, "." + attr
+
+
 def judge_selection(ctx, flow, caller, node, cand, label):
     """The statement `node` of `caller` (a copy, or a `return cand` of a selector) uses candidate variable `cand`: it must be a
     candidate of a loop over the search index, and reaching the statement must require the size and the hash of that very
@@ -307,24 +345,28 @@ def judge_selection(ctx, flow, caller, node, cand, label):
         return
     ctx.holds("C14.3", caller, "copy source %r is a candidate of `for %s in %s` over the search index" % (cand, norm(loop.target), norm(loop.iter)), label + " :: source")
     deps = g.control_deps(cn)
-    # ---- (a) size check
-    size_ok = False
-    for b, lab in deps:
-        t = C.test_expr(b)
-        if t is None:
-            continue
+    head = g.of[loop]
+    starts = C.succ_by_label(head, "iter")
+    region = set()
+    for st in starts:
+        region |= g.reachable(st, avoiding={head})
 
-        def atom(x):
-            if isinstance(x, ast.Compare) and len(x.ops) == 1 and isinstance(x.ops[0], (ast.Eq, ast.NotEq)):
-                sides = [x.left, x.comparators[0]]
-                for a, o in (sides, sides[::-1]):
-                    if isinstance(a, ast.Name) and a.id in sibs:
-                        ot = flow.term(o, caller)
-                        if any(y[0] == "ext" and y[1] == "pyben.load" for y in walk_terms(ot)):
-                            return isinstance(x.ops[0], ast.Eq)
-            return None
-        if C.branch_when(b, atom) == lab:
-            size_ok = True
+    def blocked(world):
+        """Within one iteration of the candidate loop, the statement cannot be reached when the atoms evaluate per `world`."""
+        return not any(cn in C.reach_under(g, st, world, stop=[head]) for st in starts)
+
+    # ---- (a) size check
+    def size_atom(x):
+        if isinstance(x, ast.Compare) and len(x.ops) == 1 and isinstance(x.ops[0], (ast.Eq, ast.NotEq)):
+            sides = [x.left, x.comparators[0]]
+            for a, o in (sides, sides[::-1]):
+                if isinstance(a, ast.Name) and a.id in sibs:
+                    ot = flow.term(o, caller)
+                    if any(y[0] == "ext" and y[1] == "pyben.load" for y in walk_terms(ot)):
+                        return isinstance(x.ops[0], ast.Eq)
+        return None
+    # when the sizes differ (every size comparison fails), the copy must be out of reach
+    size_ok = blocked(lambda x: (not size_atom(x)) if size_atom(x) is not None else None)
     ctx.decide("C14.3", caller, size_ok, "the copy requires the candidate's size to equal the recorded length",
                "the copy is not conditional on the candidate's size equalling the length the metafile records", label + " :: size")
     # ---- (b) hash check over the same candidate, or the recorded length being zero
@@ -332,25 +374,26 @@ def judge_selection(ctx, flow, caller, node, cand, label):
     why = "no controlling test compares a recorded hash with a hash computed over this candidate"
     for b, lab in deps:
         t = C.test_expr(b)
+        # `if not size: return path` - an empty file needs no hash
+        if t is not None and lab == "true" and isinstance(t, ast.UnaryOp) and isinstance(t.op, ast.Not) and isinstance(t.operand, ast.Name) and t.operand.id in sibs and size_ok:
+            hash_ok = True
+    for b in sorted((n_ for n_ in region if n_.kind == "test"), key=lambda n_: n_.id):
+        t = C.test_expr(b)
         if t is None:
             continue
         for a in C.atoms_of(t):
-            # `if not size: return path` - an empty file needs no hash
-            if lab == "true" and isinstance(t, ast.UnaryOp) and isinstance(t.op, ast.Not) and isinstance(t.operand, ast.Name) and t.operand.id in sibs and size_ok:
-                hash_ok = True
-            if lab != "true":
+            res = hash_equality(flow.term(a, caller))
+            if not res:
                 continue
-            vt = flow.term(a, caller)
-            res = hash_equality(vt)
-            if res:
-                forced = C.branch_when(b, lambda x, a=a: False if x is a else None)
-                if forced is None or forced == lab:
+            # when the hashes differ the atom is False (an equality) / True (an inequality): the copy must then be out of reach
+            if not blocked(lambda x, a=a, res=res: (res == "ne") if x is a else None):
+                if any(b is d for d, _ in deps):
                     why = "the controlling test %s does not depend on the hash comparison alone (it can pass when the hashes differ)" % norm(t)
-                    continue
-                if local_chain_uses(ctx, caller, a, cand, loop):
-                    hash_ok = True
-                else:
-                    why = "the hash that is compared is not computed from the candidate %r that gets copied" % cand
+                continue
+            if local_chain_uses(ctx, caller, a, cand, loop):
+                hash_ok = True
+            else:
+                why = "the hash that is compared is not computed from the candidate %r that gets copied" % cand
     ctx.decide("C14.3", caller, hash_ok, "the copy is conditional on a recorded hash equalling the hash of bytes read from this very candidate (or the recorded length being zero)",
                "unverified copy: " + why, label + " :: hash")
 
@@ -358,13 +401,13 @@ def judge_selection(ctx, flow, caller, node, cand, label):
 def hash_equality(vt):
     """The value term contains (possibly through a boolean summary) an equality between a recorded and a computed hash."""
     for x in walk_terms(vt):
-        if x[0] == "op" and x[1] == "cmp:Eq" and len(x[2]) == 2:
+        if x[0] == "op" and x[1] in ("cmp:Eq", "cmp:NotEq") and len(x[2]) == 2:
             for a, b in ((x[2][0], x[2][1]), (x[2][1], x[2][0])):
                 computed = any((y[0] == "ext" and y[1].startswith("hashlib.")) or (y[0] == "inst" and "Hasher" in y[1]) for y in walk_terms(a))
                 recorded = any(y[0] == "ext" and y[1] == "pyben.load" for y in walk_terms(b))
                 if computed and recorded:
-                    return True
-    return False
+                    return "eq" if x[1] == "cmp:Eq" else "ne"
+    return None
 
 
 def piece_nodes_cover_bytes(ctx):
